@@ -192,6 +192,7 @@ class FakeSnowflakeCursor:
             .transform(transforms.sample)
             .transform(transforms.array_size)
             .transform(transforms.random)
+            .transform(transforms.hex_string)
             .transform(transforms.identifier)
             .transform(transforms.array_agg_within_group)
             .transform(transforms.array_agg)
